@@ -10,3 +10,7 @@ package utils
 //@   ensures fresh(result) && len(result) == len(s) + len(v)
 //@   ensures forall k int :: 0 <= k && k < len(s) ==> result[k] == old(s[k])
 //@   ensures forall k int :: 0 <= k && k < len(v) ==> result[len(s) + k] == iface(&v[k])
+
+//@ contract FieldToCurve
+//@   props C09
+//@   assigns nothing
